@@ -5,16 +5,23 @@ C12 itself stays NOT APPLICABLE: it quantifies over process-death points and ove
 contracts CAN say - and what is proved here on the real source - is the state of the abstract file at every point where a listener returns:
 
   C11  HDFDatabase.to_file@c12          to_file with (a) the history preconditions only demanded when the node already holds points (the first backup
-                                        export goes to an empty node: full-export fall-back), (b) the file handle closed at exit (ghost h5_nopen)
-       HDFDatabase.update_from_file@c12 reader + handle closed, file untouched
-       Database.to_hdf / update_from_hdf            delegation to the two above (same clauses, stated for the database's own HDFDatabase)
+                                        export goes to an empty node: full-export fall-back), (b) the file handle closed at exit (ghost h5_nopen),
+                                        (c) its own per-point history precondition RE-ESTABLISHED (records-history:*, through @c12 variants of
+                                        __add_hdf_output_dataset / __create_hdf_input_output / __append_hdf_output)
+       HDFDatabase.update_from_file@c12 reader + handle closed, file untouched, listeners kept, only listeners registered at entry are notified
+       Database.to_hdf / update_from_hdf / from_hdf delegation to the two above (same clauses, stated for the database's own HDFDatabase; from_hdf: a NEW database)
        OptimizationProblem.to_hdf                   description block (assumed summary), then Database.to_hdf(append=True) AFTER the handle is closed
        BaseScenario._execute_backup_callback        = OptimizationProblem.to_hdf(backup path, append=True): afterwards the file lists the database
-       BackupInvariantLemmas                        "file == database at the last notification" is inductive over store + notification
+       BackupInvariantLemmas                        "file == database at the last notification" is inductive over store + notification (proved postconditions only)
+       BaseScenario.set_optimization_history_backup@file   the first export starts from an empty file or one listing the database   (KNOWN FINDING)
+       BaseScenario.execute                         after a run that recorded new points the file lists the database, nothing pending    (KNOWN FINDING)
   C03  Database.store@c12               the listeners are notified AFTER the point is recorded and registered for export (preconditions of the two
                                         notify functions, proved at their only call sites), the stored point is pending
-       EvaluationProblem.add_listener, BaseScenario.set_optimization_history_backup (registration, erase / load branches, restored counter)
+       EvaluationProblem.add_listener, BaseScenario.set_optimization_history_backup (registration, erase / load branches, restored counter, the load
+                                        precedes the registration)
   C01  BaseScenario.set_optimization_history_backup@restart: the loaded points are database entries (served from the database by C01's contracts)
+
+Run-time replay on real files: contracts/rt_c12.py (routed through contracts/rt_c11.py).  Model additions: pyvc/plug_c12.py (opt-in ``c12 = True``).
 """
 from __future__ import annotations
 
@@ -85,6 +92,30 @@ def listeners_kept(c):
     return [("listeners-kept", z3.And(d1._Database__store_listeners.n == d0._Database__store_listeners.n, d1._Database__store_listeners.elems == d0._Database__store_listeners.elems,
                                       d1._Database__new_iter_listeners.n == d0._Database__new_iter_listeners.n,
                                       d1._Database__new_iter_listeners.elems == d0._Database__new_iter_listeners.elems))]
+
+
+def notified_listeners_were_registered(c, db0):
+    """Every call logged since entry is a call of a listener that was in one of the two listener lists of the database AT ENTRY (view ``db0``)."""
+    from contracts.c01_c03_evaluation import LOGS
+    from contracts.c03_driver import lin
+    from pyvc import gmodels as G
+
+    SL, NL = db0._Database__store_listeners, db0._Database__new_iter_listeners
+    n0, n1 = c.old_ghost("calllog_n", INT), c.new_ghost("calllog_n", INT)
+    l1 = c.new_ghost("calllog", LOGS)
+    j = z3.Int("j!nl")
+    fn = G.CallRec.call_fn(l1[j])
+    return [("calllog-grows", n1 >= n0),
+            ("notified-listeners-were-registered-at-entry", z3.ForAll([j], z3.Implies(z3.And(n0 <= j, j < n1), z3.Or(lin(SL, fn), lin(NL, fn))), patterns=[l1[j]]))]
+
+
+def listener_lists_axioms(db0):
+    """Cited lemma (ListMembershipLemmas 'elements-are-members', proved from the definition of list membership): the elements of a list are members of it."""
+    from pyvc.plug_c03 import lmem_elems_are_members
+
+    SL, NL = db0._Database__store_listeners, db0._Database__new_iter_listeners
+    return [("lemma(ListMembershipLemmas):elements-of-the-store-listener-list-are-members", lmem_elems_are_members(SL.n, SL.elems)),
+            ("lemma(ListMembershipLemmas):elements-of-the-new-iteration-listener-list-are-members", lmem_elems_are_members(NL.n, NL.elems))]
 
 
 # ---------------------------------------------------------------------------- HDFDatabase.to_file / update_from_file with the handle clause
@@ -160,7 +191,7 @@ def _record_facts(F: Node, i, outs_has, label="record:"):
     j, s = z3.Int("j!rf"), z3.Const("s!rf", StrS)
     nn = F.nn(i)
     return [(label + "listing-length", nn >= 0),
-            (label + "listed-names-are-names-of-the-point", FA([j], z3.Implies(z3.And(0 <= j, j < nn), z3.And(outs_has(F.name(i, j)), F.pos(i, F.name(i, j)) == j + 1)), F.name(i, j))),
+            (label + "listed-names-are-names-of-the-point", FA([j], z3.Implies(z3.And(0 <= j, j < nn), z3.And(outs_has(F.name(i, j)), F.pos(i, F.name(i, j)) == j)), F.name(i, j))),
             (label + "array-datasets-are-positions", FA([s], z3.Implies(z3.And(F.has_agrp(i), F.amem(i)[s]), z3.And(s == sidx(ios(s)), 0 <= ios(s), ios(s) < nn)), F.amem(i)[s]))]
 
 
@@ -224,14 +255,18 @@ class UpdateFromFileClosed(UpdateFromFile):
     prop = ("C11",)
     c12 = True
     modifies = UpdateFromFile.modifies + ("ghost:h5_nopen",)
-    loops = {0: LoopSpec(anchor=UpdateFromFile.loops[0].anchor, inv=lambda c, k: W._reader_inv(c, k) + listeners_kept(c), modifies=UpdateFromFile.loops[0].modifies,
-                         local_types=UpdateFromFile.loops[0].local_types)}
+    loops = {0: LoopSpec(anchor=UpdateFromFile.loops[0].anchor, inv=lambda c, k: W._reader_inv(c, k) + listeners_kept(c) + notified_listeners_were_registered(c, c.old.database),
+                         modifies=UpdateFromFile.loops[0].modifies, local_types=UpdateFromFile.loops[0].local_types)}
+
+    def axioms(self, c):
+        return super().axioms(c) + listener_lists_axioms(c.old.database)
 
     def requires(self, c):
         return super().requires(c) + not_open(c)
 
     def ensures(self, c):
-        return super().ensures(c) + listeners_kept(c) + closed(c)
+        # (the stores of the reader notify the listeners registered when the reader started - and only those)
+        return super().ensures(c) + listeners_kept(c) + notified_listeners_were_registered(c, c.old.database) + closed(c)
 
 
 # ---------------------------------------------------------------------------- delegation: Database.to_hdf / update_from_hdf
@@ -313,6 +348,9 @@ class DatabaseUpdateFromHdf(_Delegates):
     self_schema = DB12
     params = {"file_path": TStr, "hdf_node_path": TStr}
     modifies = ("self", "self._Database__hdf_database", "ghost:calllog", "ghost:calllog_n", "ghost:h5_nopen")
+
+    def axioms(self, c):
+        return READER.axioms(Shift(c, lambda ns: ns.self))
 
     def requires(self, c):
         return READER.requires(Shift(c, lambda ns: ns.self))
@@ -403,6 +441,16 @@ def registered_for_export(P, x):
     return z3.And(P.member[h], P.vals[h] == x)
 
 
+def pending_after_store(P0, P1, x):
+    """The export buffer after Database.store(x, ..): x is registered, earlier registrations are kept (the clauses of add_pending_array@c11)."""
+    hd = H.hnd_hash(W.wa(x))
+    h = z3.Int("h!st12")
+    return [("pending:the-stored-point-is-registered", registered_for_export(P1, x)),
+            ("pending:keys", z3.ForAll([h], P1.has(h) == z3.Or(P0.has(h), h == hd))),
+            ("pending:earlier-registrations-kept", z3.ForAll([h], z3.Implies(P0.has(h), P1.get(h) == P0.get(h)))),
+            ("pending-wf", pending_wf(P1))]
+
+
 class _NotifyAfterRecording:
     """Precondition of the two notification functions, proved at their only call sites (Database.store): the listeners are called when the point IS
     recorded in the database and registered for the next export - so a listener that exports the database (the backup callback) exports a database
@@ -449,16 +497,7 @@ class StoreThenNotify(DatabaseStore):
         return super().requires(c) + [("pending-wf", pending_wf(pending_of(c.old.self)))]
 
     def ensures(self, c):
-        P0, P1 = pending_of(c.old.self), pending_of(c.new.self)
-        x = c.old.x_vect.term
-        hd = H.hnd_hash(W.wa(x))
-        h = z3.Int("h!st12")
-        return super().ensures(c) + [
-            ("pending:the-stored-point-is-registered", registered_for_export(P1, x)),
-            ("pending:keys", z3.ForAll([h], P1.has(h) == z3.Or(P0.has(h), h == hd))),
-            ("pending:earlier-registrations-kept", z3.ForAll([h], z3.Implies(P0.has(h), P1.get(h) == P0.get(h)))),
-            ("pending-wf", pending_wf(P1)),
-        ]
+        return super().ensures(c) + pending_after_store(pending_of(c.old.self), pending_of(c.new.self), c.old.x_vect.term)
 
 
 # ---------------------------------------------------------------------------- C03: registration of the backup listener, erase / load branches
@@ -575,6 +614,9 @@ class _SetBackup(Contract):
                 ("no-load:database-and-counter-untouched", z3.Implies(z3.Not(loads), z3.And(D3.data_term(D1) == D3.data_term(D0), k1.current == k0.current))),
                 ("maximum-kept", k1.maximum == k0.maximum),
             ] + closed(c)
+            # the load PRECEDES the registration: whatever the stores of the load notified was a listener before this call (the backup callback, registered
+            # here, is not notified of the points it is loading - it would export the very file that is open for reading)
+            out += [("load-precedes-registration:" + l, f) for l, f in notified_listeners_were_registered(c, db0)]
         if "restart" in self.groups:
             out += [
                 ("restart:the-database-holds-the-points-of-the-file-in-file-order", z3.Implies(z3.And(loads, D0.n == 0), database_lists_the_file(F0, D1))),
@@ -692,12 +734,6 @@ def export_ready(D, P, F):
     return [(l, f) for l, f in WRITER.requires(_ExportState(D, P, F)) if l != "no-handle-open"]
 
 
-def records_history(F: Node, D):
-    """The per-point history of to_file (`history:records-of-exported-points`): the names listed for an exported point are names of that point."""
-    i = z3.Int("i!rh")
-    return FA([i], z3.Implies(z3.And(0 <= i, i < D.n, F.Xm[sidx(i)]), record_pre(F, D, i)), sidx(i))
-
-
 @register
 class BackupInvariantLemmas(Contract):
     """'At every notification the backup callback finds its precondition; when it returns the file lists the database' - as an invariant over the contracts of
@@ -707,9 +743,9 @@ class BackupInvariantLemmas(Contract):
       initially        an absent / erased / empty file (x has no member) with ANY database and a well-formed buffer satisfies R      (first export: fall-back)
       store-preserves  R(F, D0, P0) and the postcondition of store@c12 (D0 -> D1, P0 -> P1) give R(F, D1, P1)   - for ANY number of stores between two
                        notifications, hence for store listeners (every store) and for new-iteration listeners (every new complete iteration) alike
-      export-restores  the postcondition of to_file@c12 (file F1 lists D: exported view; buffer emptied) gives R(F1, D, empty) again, PROVIDED the per-point
-                       records of F1 only list names of their points (`records_history`; to_file proves the index level only, see C11 - this hypothesis is the
-                       part of the induction that is not closed by a proved postcondition and is listed under not_covered)
+      export-restores  the postcondition of to_file@c12 (file F1 lists D: exported view; the record of every exported point only lists names of that point:
+                       `records-history:*`, proved through the @c12 variants of __add_hdf_output_dataset / __create_hdf_input_output / __append_hdf_output;
+                       buffer emptied) gives R(F1, D, empty) again - the induction is closed by PROVED postconditions only
       prefix           the postcondition of to_file@c12 says: x has exactly the entries 0..n-1, x/<i> = the i-th key of the database - the points recorded so
                        far, in order (restated from IndexRoundTripLemmas for the reader: reloading gives these points in this order)."""
 
@@ -733,18 +769,15 @@ class BackupInvariantLemmas(Contract):
             out.append((f"initially:{l}", z3.Implies(base, f)))
         # -- store preserves R
         R0 = z3.And(*[f for _, f in export_ready(D0, P0, F)])
-        h = z3.Int("h!bl2")
-        hd = H.hnd_hash(W.wa(x))
-        store_post = z3.And(*[f for _, f in data_after_store(D0, D1, x, outs.member, outs.vals, outs.n)], db_wf(D1),
-                            registered_for_export(P1, x), z3.ForAll([h], P1.has(h) == z3.Or(P0.has(h), h == hd)),
-                            z3.ForAll([h], z3.Implies(P0.has(h), P1.get(h) == P0.get(h))), pending_wf(P1))
+        # (the clauses of store@c12 about the database content and the export buffer, built by the same functions as its `ensures`)
+        store_post = z3.And(*[f for _, f in data_after_store(D0, D1, x, outs.member, outs.vals, outs.n)], db_wf(D1), *[f for _, f in pending_after_store(P0, P1, x)])
         for l, f in export_ready(D1, P1, F):
             out.append((f"store-preserves:{l}", z3.Implies(z3.And(facts, R0, store_post), f)))
         # -- the export restores R (with an empty buffer) and leaves the file listing the database
         st = _ExportState(D0, P0, F, P1=PE, F1=F1)
         post = z3.And(*[f for _, f in WRITER.ensures(st)])
         for l, f in export_ready(D0, PE, F1):
-            out.append((f"export-restores:{l}", z3.Implies(z3.And(facts, R0, post, records_history(F1, D0)), f)))  # (R0: the export starts from R and does not touch the database)
+            out.append((f"export-restores:{l}", z3.Implies(z3.And(facts, R0, post), f)))  # (R0: the export starts from R and does not touch the database)
         i = z3.Int("i!bl")
         out.append(("prefix:the-file-lists-exactly-the-recorded-points-in-order",
                     z3.Implies(z3.And(facts, post), z3.And(F1.Xn == D0.n, z3.ForAll([i], z3.Implies(z3.And(0 <= i, i < D0.n), z3.And(F1.Xm[sidx(i)], key_of(F1.xval(i)) == D0.keys[i])))))))
@@ -811,8 +844,7 @@ class ScenarioRun(Contract):
     modifies = RUN_MODIFIES
     trusted = True
     description = ("assumed summary of the run: the database only grows (points keep their places), the backup flags / path of the scenario are kept, and the export "
-                   "preconditions R of the backup callback are preserved (BackupInvariantLemmas over store@c12 and to_file@c12; the per-point record history is "
-                   "the unproved hypothesis named there); no file handle is left open")
+                   "preconditions R of the backup callback are preserved (BackupInvariantLemmas over store@c12 and to_file@c12; all three steps proved); no file handle is left open")
 
     def requires(self, c):
         return _writer_pre(c, _scn_db, TRUE)
